@@ -338,82 +338,30 @@ let show_ref (c : child_ref) : string =
   | RefNone -> "none"
 
 (* "raw[hexkey=hexval;...]" -> the canonical "an[...]other=0" rendering (nonce 0 printed as 1) *)
-let decode_raw_nodes (raw : string) : string =
+(* the raw dump of the real database ("raw[hexkey=hexvalue;...]") decoded by the PROVED decoder of the
+   whole image (DbImage.decode_image, DbImageFacts.decode_encode_image): node store rendered with
+   nonce 0 read as 1 (keys and references), then the fast index with entry versions and the label *)
+let render_decoded_image (raw : string) : string =
   let body = String.sub raw 4 (String.length raw - 5) in
   let ents = if body = "" then [] else String.split_on_char ';' body in
-  let items = List.filter_map (fun e ->
+  let pairs = List.filter_map (fun e ->
       match String.split_on_char '=' e with
-      | [ k; v ] ->
-          let kb = bytes_of_tok k and vb = (if v = "" then [] else bytes_of_tok v) in
-          (match kb with
-           | p :: nk when int_of_n p = 115 && List.length nk = 12 ->
-               (match parse_node_key nk with
-                | DOk (ver, nonce) ->
-                    let nn = (let x = int_of_z nonce in if x = 0 then 1 else x) in
-                    let desc =
-                      (match classify_root vb with
-                       | RootEmpty -> "E"
-                       | RootRef13 (rv, rn) -> Printf.sprintf "R:%d.%d" (int_of_z rv) (let x = int_of_z rn in if x = 0 then 1 else x)
-                       | RootRef9 rv -> Printf.sprintf "R:%d.1" (int_of_z rv)
-                       | RootBadRef -> "BADREF"
-                       | RootNode ->
-                           (match decode_node nk vb with
-                            | DOk n ->
-                                (match n.rn_value with
-                                 | Some value -> "N:L," ^ hex_of_bytes n.rn_key ^ "," ^ hex_of_bytes value
-                                 | None -> Printf.sprintf "N:I,%d,%d,%s,%s,%s,%s" (int_of_z n.rn_height) (int_of_z n.rn_size)
-                                             (hex_of_bytes n.rn_key) (hex_of_bytes n.rn_hash) (show_ref n.rn_left) (show_ref n.rn_right))
-                            | DErr -> "DECODE-ERR"
-                            | DPanic -> "DECODE-PANIC")) in
-                    Some ((int_of_z ver, nn), desc)
-                | _ -> Some ((0, 0), "BADKEY"))
-           | _ -> None)
+      | [ k; v ] -> Some (bytes_of_tok k, (if v = "" then [] else bytes_of_tok v))
       | _ -> None) ents in
-  let sorted = List.stable_sort (fun (a, _) (b, _) -> compare a b) items in
-  "an[" ^ String.concat ";" (List.map (fun ((v, n), d) -> Printf.sprintf "%d.%d=%s" v n d) sorted) ^ "]other=0"
+  match decode_image pairs with
+  | None -> "DECODE-FAILED"
+  | Some ((store, fi), l) ->
+      let n1 (v, n) = (v, (if n = Z0 then z_of_int 1 else n)) in
+      let norm_entry = function ERef k -> ERef (n1 k) | ENode (SInner (k, h, sz, hash, lk, rk)) -> ENode (SInner (k, h, sz, hash, n1 lk, n1 rk)) | e -> e in
+      let items = List.map (fun (k, e) -> (n1 k, norm_entry e)) store in
+      let items = List.stable_sort (fun ((a, b), _) ((c, d), _) -> compare (int_of_z a, int_of_z b) (int_of_z c, int_of_z d)) items in
+      let lbl = (match l with None -> "1.0.0" | Some v -> Printf.sprintf "1.1.0-%d" (int_of_z v)) in
+      show_store "an" items ^ "|" ^
+      Printf.sprintf "af(%s;[%s])" lbl
+        (String.concat "," (List.map (fun (k, (u, v)) -> Printf.sprintf "%s=%s@%d" (hex_of_bytes k) (hex_of_bytes v) (int_of_z u)) fi))
 
 let raw_match (model : string) (impl : string) : bool =
-  starts_with "an[" model && starts_with "raw[" impl && (try decode_raw_nodes impl = model with _ -> false)
-
-(* --- C13 backward direction: the model state written out with the Coq ENCODERS --- *)
-let encode_db (st : mstate) : string =
-  let ents = ref [] in
-  let add k v = ents := (hex_of_bytes k ^ "=" ^ hex_of_bytes v) :: !ents in
-  let seen = Hashtbl.create 64 in
-  let rec walk (t : node) =
-    let m = node_meta t in
-    let key = (int_of_z m.ver, int_of_z m.nonce) in
-    if not (Hashtbl.mem seen key) then begin
-      Hashtbl.add seen key ();
-      let dbk = db_node_key (node_key_bytes m.ver m.nonce) in
-      match t with
-      | Leaf (k, v, _) ->
-          add dbk (encode_node { rn_height = Z0; rn_size = z_of_int 1; rn_key = k; rn_value = Some v; rn_hash = [];
-                                 rn_left = RefNone; rn_right = RefNone })
-      | Inner (k, h, sz, _, l, r) ->
-          let lm = node_meta l and rm = node_meta r in
-          add dbk (encode_node { rn_height = h; rn_size = sz; rn_key = k; rn_value = None; rn_hash = m.hs;
-                                 rn_left = RefNew (lm.ver, lm.nonce); rn_right = RefNew (rm.ver, rm.nonce) });
-          walk l; walk r
-    end in
-  List.iter (fun (v, r) ->
-      match r with
-      | None -> add (db_node_key (node_key_bytes v (z_of_int 1))) []
-      | Some t ->
-          walk t;
-          let m = node_meta t in
-          if not (int_of_z m.ver = int_of_z v && int_of_z m.nonce = 1) then
-            add (db_node_key (node_key_bytes v (z_of_int 1))) (root_ref_value m.ver m.nonce)) st.forest;
-  (* the fast index and its label describe the latest version *)
-  let rec last = function [] -> None | [ x ] -> Some x | _ :: r -> last r in
-  (match last st.forest with
-   | None -> ()
-   | Some (v, r) ->
-       (match r with
-        | Some t -> List.iter (fun (k, x, ver) -> add (db_fast_key k) (encode_fast_node (z_of_int ver) x)) (leaves_with_ver t [])
-        | None -> ());
-       add db_meta_key (fast_storage_label v));
-  String.concat ";" (List.rev !ents)
+  starts_with "an[" model && starts_with "raw[" impl && (try render_decoded_image impl = model with _ -> false)
 
 let cfg_fast (params : string list) : bool =
   let cfg = header_param params "cfg" "" in
@@ -628,7 +576,7 @@ let make_m1 (params : string list) : machine =
               | (bad, _) -> bad
             end
         | [ "audit"; "nodes" ] -> expected_nodes !st
-        | [ "audit"; "raw" ] -> expected_nodes !st
+        | [ "audit"; "raw" ] -> expected_nodes !st ^ "|" ^ show_fast ()
         | [ "audit"; "fast" ] -> show_fast ()
         | [ "audit"; "fastvals" ] ->
             (* a database written by the Coq encoders (backward format check): label and values of
@@ -770,7 +718,11 @@ let make_m1 (params : string list) : machine =
             (match via_index with
              | Some o when show_out (snd (fstep_sha !fs o)) = impl -> Some "C07-unloaded-object-stale-index"
              | _ -> classify_m1 !prev toks model impl));
-    dump = (fun () -> encode_db !st) }
+    dump = (fun () ->
+        (* the database image written by the proved encoder of the whole image (DbImage.encode_image)
+           from the model's physical store, index and label *)
+        String.concat ";" (List.map (fun (k, v) -> hex_of_bytes k ^ "=" ^ hex_of_bytes v)
+                             (encode_image (phys_of !rk !st.forest) !fs.fidx !fs.dlabel))) }
 
 (* ---------- machine kv: the storage backends (C18) ---------- *)
 let show_kverr = function ErrKeyEmpty -> "err:key" | ErrValueNil -> "err:val" | ErrBatchClosed -> "err:closed"
@@ -923,8 +875,9 @@ let make_dec (_ : string list) : machine =
                     | Some v -> if hex_of_bytes n.rn_key = "6b" then "ok:" ^ (if v = [] then "" else hex_of_bytes v) else "ok:nil"
                     | None -> "*")) in
             let at (ver : z) (nonce : z) =
-              if int_of_z ver = 1 && int_of_z nonce = 1 then "ok:76"
-              else if int_of_z ver = 2 && int_of_z nonce = 1 then as_node ()
+              (* compared as Z values: a version such as 0x8000000000000001 does not fit an OCaml int *)
+              if ver = z_of_int 1 && nonce = z_of_int 1 then "ok:76"
+              else if ver = z_of_int 2 && nonce = z_of_int 1 then as_node ()
               else "err" in
             (match classify_root bb with
              | RootEmpty -> "ok:nil"
